@@ -118,7 +118,7 @@ class PreconditionsParser:
                 continue
 
             if precondition_node[0] == EQUALITY_OPERATOR:
-                if isinstance(precondition_node[1], List):
+                if any(isinstance(operand, List) for operand in precondition_node[1:]):
                     self.logger.debug("Found numeric equality precondition")
                     numeric_precondition = NumericalExpressionTree(
                         construct_expression_tree(precondition_node, domain_functions)
